@@ -229,7 +229,7 @@ def simulate(seed, N, profile=None, conf='mixp', fixed_ops=None, world=None):
                 if sendq[fd] and not c['quit'] and R.random() < 0.7:
                     n = R.choice([len(sendq[fd]), len(sendq[fd]), R.randint(1, len(sendq[fd]))]); data = sendq[fd][:n]; sendq[fd] = sendq[fd][n:]; rev |= 1
                 if c['to'] and R.random() < 0.85:
-                    rev |= 2; cap = R.choice([1 << 20, 1 << 20, 1 << 20, R.randint(1, 60)])
+                    rev |= 2; cap = R.choice([1 << 20, 1 << 20, 1 << 20, R.randint(1, 60), -2])
                 r = R.random() / max(F, 1e-9)
                 if r < 0.01: rev |= 1; rk = 2; sendq[fd] = data + sendq[fd]; data = b""
                 elif r < 0.015: rev |= 1; rk = 1; sendq[fd] = data + sendq[fd]; data = b""
@@ -252,7 +252,9 @@ def simulate(seed, N, profile=None, conf='mixp', fixed_ops=None, world=None):
                     elif conn[di] == 2:
                         if pending[di] and R.random() < 0.8:
                             n = R.choice([len(pending[di]), len(pending[di]), R.randint(1, len(pending[di]))]); data = pending[di][:n]; pending[di] = pending[di][n:]; rev |= 1
-                        if dto[di] and R.random() < 0.85: rev |= 2
+                        if dto[di] and R.random() < 0.85:
+                            rev |= 2
+                            if R.random() < 0.15: cap = -2
                         if r < 0.03: rev |= R.choice([4, 8, 16])
                         elif r < 0.06: rev |= 1; rk = R.choice([1, 2]); pending[di] = data + pending[di]; data = b""
                         elif r < 0.08: rev |= 2; cap = -1
@@ -261,7 +263,21 @@ def simulate(seed, N, profile=None, conf='mixp', fixed_ops=None, world=None):
                     if (rev & 1) and rk == 0 and not data: rev &= ~1
                     if rev: parts.append("%d:%d:%d:%s:%d" % (dfd[di], rev, rk, hx(data), cap))
             op = "P %d %d %d %d" % (now, acc, g.connans(), soe) + "".join(" " + x for x in parts)
-        res = c_op(op); ops.append(op)
+        res = c_op(op)
+        if ':-2' in op and fixed_ops is None:
+            # "first piece only" capacities: record the op with the byte count the kernel really took (same behaviour on replay
+            # and in the model, which has no ring layout)
+            wrote = {}
+            for l in res:
+                if l.startswith("Y write "):
+                    t = l.split(); wrote[int(t[2])] = len(t[3]) // 2 if t[3] != "-" else 0
+            t = op.split()
+            for i in range(5, len(t)):
+                f = t[i].split(":")
+                if f[4] == '-2':
+                    f[4] = str(wrote.get(int(f[0])) or (1 << 20)); t[i] = ":".join(f); stats['writes limited to the first piece offered'] += 1
+            op = " ".join(t)
+        ops.append(op)
         xs = [l for l in res if l.startswith("X ")]; obs = [l for l in res if not l.startswith("X ")]
         xsl.append(xs); couts.append(obs)
         if "DIED" in res:
@@ -305,6 +321,108 @@ def simulate(seed, N, profile=None, conf='mixp', fixed_ops=None, world=None):
     err = open(errpath).read()
     os.unlink(errpath)
     return dict(seed=seed, conf=conf, dump=dump, ops=ops, couts=couts, xs=xsl, stats=stats, died=died, stderr=err[-6000:], rc=p.returncode, teardown=teardown)
+
+
+def simulate_steady(seed, cycles=42, nlines=8, world=None, conf='mixp'):
+    """steady-state run for the live-heap ledger: the same cycle - a client connects, sends a fixed list of request lines one
+    after the other (each awaited), quits; every device then drops its connection and is logged in again - is repeated with
+    identical device answers; the harness reports the live heap at the end of every cycle (all queues empty, no client)"""
+    binary = build()
+    cpath = world.conf_path() if world else conf_path(conf)
+    g = Gen(seed, dict(faults=0.0, garbage=0.0, fatal=0.0, quit=0.0)); g.world = world
+    L = []
+    while len(L) < nlines:
+        l = g.clientline()
+        if l.endswith(b"\n") and b"quit" not in l: L.append(l)
+    errpath = os.path.join(tree_dir(), 'udmn.err.%d.%d.s' % (os.getpid(), seed))
+    p, dump, c_op = run_c(binary, cpath, None, 0, errpath)
+    ops = []; couts = []; xsl = []; stats = collections.Counter()
+    ND = world.nd if world else 2
+    S = dict(now=0, conn=[0] * ND, dfd=[-1] * ND, dto=[False] * ND, pending=[b""] * ND, logged=[0] * ND, qlen=[0] * ND, live={}, died=False, heap=None)
+
+    def do(op):
+        res = c_op(op); ops.append(op)
+        xs = [l for l in res if l.startswith("X ")]; obs = [l for l in res if not l.startswith("X ")]
+        xsl.append(xs); couts.append(obs)
+        if "DIED" in res: S['died'] = True; return
+        newlive = {}
+        wfd = {S['dfd'][i]: i for i in range(ND) if S['dfd'][i] >= 0}
+        for l in obs:
+            t = l.split()
+            if l.startswith("C "): newlive[int(t[2])] = dict(id=int(t[1]), quit=t[3] == "1", pending=int(t[6]), to=t[8] != "-", frm=t[9] != "-")
+            elif l.startswith("I heap"): S['heap'] = int(t[2])
+            elif l.startswith("O dev ") and t[3] == "conn":
+                di = int(t[2]); newconn = int(t[4]); S['dfd'][di] = int(t[7]); S['logged'][di] = int(t[5])
+                if newconn == 2 and S['conn'][di] != 2: S['pending'][di] = world.greeting(di) if world else b"hello\n0 vpc> "
+                if newconn != 2: S['pending'][di] = b""
+                S['conn'][di] = newconn
+            elif l.startswith("O dev ") and t[3] == "to": S['dto'][int(t[2])] = (t[4] != "-")
+            elif l.startswith("O dev ") and t[3] == "queue": S['qlen'][int(t[2])] = len(t) - 4
+            elif l.startswith("Y write "):
+                fd = int(t[2]); w = bytes.fromhex(t[3]) if t[3] != "-" else b""
+                if fd >= 2000 and t[4] == "ok" and fd in wfd:
+                    lines = [x for x in re.sub(rb"\xff[\xfb\xfc].", b"", w, flags=re.S).split(b"\n") if x and x[0] != 255]
+                    if lines: S['pending'][wfd[fd]] += (world.devreply(g, wfd[fd], lines[-1] + b"\n", len(ops)) if world else g.devreply(lines[-1] + b"\n"))
+                elif fd < 2000:
+                    for ln in w.split(b"\r\n"):
+                        if ln[:3].isdigit(): stats['code ' + ln[:3].decode()] += 1
+        S['live'] = newlive
+
+    def mkop(dt, acc=0, cdata=None, deveof=False):
+        S['now'] += dt
+        parts = []
+        for fd, c in S['live'].items():
+            rev = 2 if c['to'] else 0; data = b""
+            if cdata is not None: rev |= 1; data = cdata
+            if rev: parts.append("%d:%d:0:%s:%d" % (fd, rev, hx(data), 1 << 20))
+        for di in range(ND):
+            if S['dfd'][di] < 0: continue
+            rev = 0; rk = 0; data = b""
+            if S['conn'][di] == 1: rev = 2
+            elif S['conn'][di] == 2:
+                if deveof: rev = 1; rk = 2; S['pending'][di] = b""
+                else:
+                    if S['pending'][di]: data = S['pending'][di][:600]; S['pending'][di] = S['pending'][di][600:]; rev |= 1
+                    if S['dto'][di]: rev |= 2
+            if rev: parts.append("%d:%d:%d:%s:%d" % (S['dfd'][di], rev, rk, hx(data), 1 << 20))
+        return "P %d %d 1 0" % (S['now'], acc) + "".join(" " + x for x in parts)
+
+    def settled():
+        return all(S['conn'][i] == 2 and S['logged'][i] and S['qlen'][i] == 0 and not S['pending'][i] and not S['dto'][i] for i in range(ND))
+
+    def idle():
+        return all(c['pending'] == -1 and not c['to'] and not c['frm'] for c in S['live'].values())
+
+    heaps = []; marks = []
+    do("I 0 1 0")
+    for cyc in range(cycles):
+        if S['died']: break
+        g.R.seed(seed * 7919 + 13)               # identical device answers in every cycle
+        k = 0
+        while not settled() and k < 400 and not S['died']: do(mkop(500000)); k += 1
+        do(mkop(1000, acc=1))
+        for ln in L:
+            if S['died'] or not S['live']: break
+            do(mkop(1000, cdata=ln)); k = 0
+            while not S['died'] and S['live'] and not (idle() and all(q == 0 for q in S['qlen'])) and k < 300: do(mkop(50000)); k += 1
+            stats['steady: request lines answered'] += 1
+        if S['live'] and not S['died']:
+            do(mkop(1000, cdata=b"quit\n")); k = 0
+            while S['live'] and k < 20 and not S['died']: do(mkop(1000)); k += 1
+        if not S['died']:
+            do(mkop(1000, deveof=True)); k = 0
+            while not settled() and k < 400 and not S['died']: do(mkop(500000)); k += 1
+            stats['steady: cycles ending settled'] += 1 if settled() and not S['live'] else 0
+            heaps.append(S['heap']); marks.append(len(ops) - 1)
+    teardown = None
+    if not S['died']:
+        res = c_op("Q"); teardown = [l for l in res if not l.startswith("X ")]
+    try: p.stdin.close()
+    except Exception: pass
+    p.wait()
+    err = open(errpath).read(); os.unlink(errpath)
+    return dict(seed=seed, conf=conf, dump=dump, ops=ops, couts=couts, xs=xsl, stats=stats, died=S['died'], stderr=err[-6000:], rc=p.returncode, teardown=teardown,
+                heaps=heaps, marks=marks, lines=[l.decode('latin1') for l in L])
 
 
 def lean_side(sim):
